@@ -7,6 +7,9 @@
 //	close        clients connect (several per id, one with a rejected auth), relay some bytes, Close()
 //	serverclose  the server is closed under connected clients
 //	kick         POST /kick, the next relayed chunk is refused, the server drops the connection
+//	dualauth     ONE QUIC connection (raw HTTP/3 client) sends TWO auth requests at the same time
+//	             while the authenticator blocks, then a third afterwards: the connection must
+//	             be listed once, and not at all after it is closed
 //	vanish       a client's socket goes silent after auth (server idle timeout), and one goes
 //	             silent while a SLOW authenticator is still deciding (auth completes after the
 //	             client has gone: online must still be followed by offline)
@@ -16,6 +19,7 @@
 package main
 
 import (
+	"context"
 	"crypto/ecdsa"
 	"crypto/elliptic"
 	"crypto/rand"
@@ -27,6 +31,7 @@ import (
 	"io"
 	"math/big"
 	"net"
+	"net/http"
 	"net/url"
 	"strings"
 	"sync"
@@ -37,6 +42,8 @@ import (
 	"github.com/apernet/hysteria/core/v2/server"
 	vh "github.com/apernet/hysteria/core/v2/verifhlib"
 	"github.com/apernet/hysteria/extras/v2/trafficlogger"
+	"github.com/apernet/quic-go"
+	"github.com/apernet/quic-go/http3"
 )
 
 func init() { vh.Register("statslive", func() vh.Component { return &statsLive{} }) }
@@ -44,7 +51,7 @@ func init() { vh.Register("statslive", func() vh.Component { return &statsLive{}
 type statsLive struct{}
 
 func (c *statsLive) Gen(r *vh.RNG, n int, emit func(op string, tags ...string)) {
-	modes := []string{"close", "serverclose", "kick", "vanish"}
+	modes := []string{"dualauth", "close", "serverclose", "kick", "vanish"}
 	for i := 0; i < n; i++ {
 		m := modes[i%len(modes)]
 		emit(fmt.Sprintf("live %s %d %d", m, r.U64()%100000, r.Range(2, 6)), m)
@@ -67,12 +74,21 @@ func liveCert() (tls.Certificate, error) {
 }
 
 // auth strings: "ok:<id>" accepted as id; "slow:<id>" accepted after a delay; anything else rejected.
-type liveAuth struct{ slow time.Duration }
+// "gate:<id>" blocks until the gate is opened (an authenticator waiting for its backend).
+type liveAuth struct {
+	slow    time.Duration
+	gate    chan struct{}
+	waiting atomic.Int32 // gate:… calls that have reached the authenticator
+}
 
 func (a *liveAuth) Authenticate(addr net.Addr, auth string, tx uint64) (bool, string) {
 	switch {
 	case strings.HasPrefix(auth, "ok:"):
 		return true, auth[3:]
+	case strings.HasPrefix(auth, "gate:"):
+		a.waiting.Add(1)
+		<-a.gate
+		return true, auth[5:]
 	case strings.HasPrefix(auth, "slow:"):
 		time.Sleep(a.slow)
 		return true, auth[5:]
@@ -199,6 +215,16 @@ func (e *liveEnv) expectCensus(what string, want map[string]int64, d time.Durati
 	e.problem("%s: /online lists %v, connected authenticated clients are %v (after waiting %v)", what, got, want, d)
 }
 
+// holdCensus: the listing must STAY equal to want for d.
+func (e *liveEnv) holdCensus(what string, want map[string]int64, d time.Duration) {
+	for t := time.Now().Add(d); time.Now().Before(t); time.Sleep(5 * time.Millisecond) {
+		if got := e.online(); !sameCensus(got, want) {
+			e.problem("%s: /online lists %v, connected authenticated clients are %v", what, got, want)
+			return
+		}
+	}
+}
+
 func (e *liveEnv) dial(auth string, f client.ConnFactory, idle time.Duration) (client.Client, error) {
 	cfg := &client.Config{ServerAddr: e.addr, Auth: auth, TLSConfig: client.TLSConfig{InsecureSkipVerify: true}, ConnFactory: f}
 	if idle > 0 {
@@ -260,11 +286,12 @@ func (c *statsLive) Run(op string) vh.Result {
 		}
 	}()
 	env.stats = trafficlogger.NewTrafficStatsServer("")
+	authn := &liveAuth{slow: 700 * time.Millisecond, gate: make(chan struct{})}
 	env.srv, err = server.NewServer(&server.Config{
 		TLSConfig:     server.TLSConfig{Certificates: []tls.Certificate{cert}},
 		QUICConfig:    server.QUICConfig{MaxIdleTimeout: 4 * time.Second},
 		Conn:          udp,
-		Authenticator: &liveAuth{slow: 700 * time.Millisecond},
+		Authenticator: authn,
 		EventLogger:   env.events,
 		TrafficLogger: env.stats,
 	})
@@ -323,6 +350,79 @@ func (c *statsLive) Run(op string) vh.Result {
 	env.expectCensus("after connecting", want, 3*time.Second)
 
 	switch mode {
+	case "dualauth":
+		var qconn *quic.Conn
+		var qmu sync.Mutex
+		rt := &http3.Transport{
+			TLSClientConfig: &tls.Config{InsecureSkipVerify: true},
+			Dial: func(ctx context.Context, _ string, tlsCfg *tls.Config, cfg *quic.Config) (*quic.Conn, error) {
+				qc, err := quic.DialAddrEarly(ctx, env.addr.String(), tlsCfg, cfg)
+				if err == nil {
+					qmu.Lock()
+					qconn = qc
+					qmu.Unlock()
+				}
+				return qc, err
+			},
+		}
+		auth := func(a string) int {
+			resp, err := rt.RoundTrip(vh.NewAuthRequest(a, 0))
+			if err != nil {
+				env.problem("auth round trip failed: %v", err)
+				return -1
+			}
+			_ = resp.Body.Close()
+			return resp.StatusCode
+		}
+		// open the connection with a request that is NOT an auth request (masquerade answers it)
+		if resp, err := rt.RoundTrip(&http.Request{Method: http.MethodGet, URL: &url.URL{Scheme: "https", Host: "verif", Path: "/"}, Header: http.Header{}}); err != nil {
+			env.problem("raw HTTP/3 connection failed: %v", err)
+			break
+		} else {
+			_ = resp.Body.Close()
+		}
+		env.expectCensus("raw connection, not authenticated", want, 2*time.Second)
+		nreq := 2 + int(seed%2)
+		codes := make([]int, nreq)
+		var wg sync.WaitGroup
+		for i := 0; i < nreq; i++ {
+			wg.Add(1)
+			go func(i int) { defer wg.Done(); codes[i] = auth("gate:zoe") }(i)
+		}
+		// let the requests reach the server: at least one is inside the authenticator; the others
+		// are either waiting for the handler's mutex or (if nothing serialises them) inside it too
+		for t := time.Now().Add(3 * time.Second); authn.waiting.Load() == 0 && time.Now().Before(t); {
+			time.Sleep(2 * time.Millisecond)
+		}
+		time.Sleep(250 * time.Millisecond)
+		inside := authn.waiting.Load()
+		close(authn.gate)
+		wg.Wait()
+		for i, c := range codes {
+			if c != vh.StatusAuthOK {
+				env.problem("concurrent auth request %d answered %d", i, c)
+			}
+		}
+		if c := auth("ok:zoe"); c != vh.StatusAuthOK { // already authenticated
+			env.problem("repeated auth request answered %d", c)
+		}
+		want["zoe"] = 1
+		time.Sleep(100 * time.Millisecond) // every handler has logged what it is going to log
+		env.expectCensus(fmt.Sprintf("one connection authenticated by %d concurrent requests (%d reached the authenticator together)", nreq, inside), want, 2*time.Second)
+		env.holdCensus("while that connection stays", want, 150*time.Millisecond)
+		_ = rt.Close()
+		qmu.Lock()
+		if qconn != nil {
+			_ = qconn.CloseWithError(0, "")
+		}
+		qmu.Unlock()
+		delete(want, "zoe")
+		env.expectCensus("after that connection closed", want, 3*time.Second)
+		env.holdCensus("after that connection closed", want, 100*time.Millisecond)
+		for _, cl := range clients {
+			_ = cl.Close()
+		}
+		env.expectCensus("after everybody closed", map[string]int64{}, 3*time.Second)
 	case "close":
 		for i, cl := range clients {
 			if r.Chance(2, 3) {
